@@ -392,7 +392,7 @@ REAL_SPECS = [
     dict(ens="GrandCanonical", atoms="M1", table=[["e", "E_transrot"]], calc="harmonic", T=300.0, mu=-0.1, depth=2, tag="molecular-exchange"),
     dict(ens="GrandCanonical", atoms="M", table=[["e", "E_transrot"], ["d", "D_rot"]], calc="harmonic", T=400.0, mu=-0.05, depth=2, tag="molecular-exchange+rotation"),
     dict(ens="GrandCanonical", atoms="A2", table=[["e", "E_trans"], ["d", "D_ball"]], calc="harmonic", T=300.0, mu=-0.1, depth=2, check=True, tag="atomic-exchange+displacement"),
-    dict(ens="GrandCanonical", atoms="A2", table=[["e", "E_trans*2"], ["f", "E_trans"]], calc="harmonic", T=300.0, mu=-0.1, depth=2, check=True, tag="composite-exchange-vetoed-members"),
+    dict(ens="GrandCanonical", atoms="A2", table=[["e", "E_trans*2"], ["f", "E_trans"]], calc="harmonic", T=300.0, mu=-0.1, depth=2, max_depth=2, check=True, tag="composite-exchange-vetoed-members"),
     dict(ens="HamiltonianCanonical", atoms="A3", table=[["h", "H"]], calc="harmonic", T=300.0, depth=2, check=True, tag="hamiltonian-vetoed-attempts"),
     dict(ens="HamiltonianCanonical", atoms="A3", table=[["h", "H1"], ["d", "D_ball"]], calc="quartic", T=500.0, depth=2, decos=["momenta"], tag="hamiltonian+displacement"),
     dict(ens="Canonical", atoms="M", table=[["r", "D_rot"], ["t", "D_trans"]], calc="harmonic", T=300.0, depth=2, check=True, tag="canonical-molecule"),
@@ -495,6 +495,12 @@ def task_real(spec):
                 k = dn // info["template"]
                 if abs(k) != 1:
                     if t.verdict is True:
+                        if k > 1:
+                            # particles inserted together share one label on the pinned tree (known
+                            # finding C05/E*2/label-shared-between-particles): what counts as one
+                            # particle afterwards is ambiguous, so the rest of this execution is not judged
+                            counters["executions_cut_after_multi_insertion"] = counters.get("executions_cut_after_multi_insertion", 0) + 1
+                            break
                         N += k
                     continue  # several particles in one trial: not a clause of the statement
                 L3 = lam_cubed(info["template_mass"], T)
@@ -537,7 +543,7 @@ def run(tier, seed):
     jobs += [("task_npt", {"tier": tier, "cell": c}) for c in CELLS]
     jobs += [("task_gc", {"tier": tier, "T": [T]}) for T in T_GRID]
     jobs += [("task_params", {"ens": e, "depth": 2 if tier == "quick" else 3}) for e in PARAMS]
-    jobs += [("task_real", {**sp, "depth": sp["depth"] + (1 if tier == "thorough" else 0)}) for sp in REAL_SPECS]
+    jobs += [("task_real", {**sp, "depth": min(sp["depth"] + (1 if tier == "thorough" else 0), sp.get("max_depth", 99))}) for sp in REAL_SPECS]
     notes = set()
     results = []
     from qv import runner
